@@ -540,7 +540,11 @@ def run(ctx):
         th = threading.Thread(target=aux)
         th.start()
         # 1. safety of the model with the deviations of the current code; terminal states = behaviour classes
-        r, cases = model_check(ctx, "MC_DriverProc_quick.cfg" if ctx.quick else "MC_DriverProc_thorough.cfg", workers=10 if ctx.quick else 14)
+        r, cases = model_check(ctx, "MC_DriverProc_quick.cfg", workers=10 if ctx.quick else 14)
+        if not ctx.quick:     # 4-stage pipelines; two failing stages in one pipeline
+            for extra in ("MC_DriverProc_thorough4.cfg", "MC_DriverProc_thorough2f.cfg"):
+                _r, more = model_check(ctx, extra, workers=14, timeout=3000)
+                cases += more
         groups = classes_of(cases)
         ctx.cov["configurations"] = len(groups)
         ctx.cov["terminal_states"] = len(cases)
